@@ -1,1 +1,62 @@
-(* to be filled *)
+(* C13, link level - the names the symbols header declares are defined in the layout.
+   Only statements, each closed by [exact]; see Proofs/C13Link.v. *)
+From Slinky Require Import Model.Types Model.Runtime Model.Style Model.Script Model.Writer Model.Exports Model.LdSem.
+From Slinky Require Import Spec.C13 Spec.C04 Proofs.C13Link.
+From Coq Require Import ZArith.
+Local Open Scope string_scope.
+Local Open Scope Z_scope.
+
+(* C13_defined: for ANY script, in a final pass (whatever the previous pass and the objects) that ends
+   without error, every non-PROVIDE recorded assignment that LdSem executes - at top level, directly
+   inside SECTIONS or inside an output section - has defined its symbol *)
+Theorem C13_defined : forall env senv ext script st sym,
+  let st' := exec_script env senv ext true script st in
+  l_errors st' = [] -> In sym (exec_recorded script) -> exists v, lookup sym (l_syms st') = Some v.
+Proof. exact recorded_defined. Qed.
+
+(* for a flat script the executed recorded assignments are all the recorded assignments ... *)
+Theorem C13_recorded_flat : forall script,
+  script_flat script = true -> recorded_syms script = exec_recorded script.
+Proof. exact exec_recorded_flat. Qed.
+
+(* ... and the scripts slinky writes are flat (both modes) *)
+Theorem C13_script_flat : forall d rt w, gen_normal d rt = Ok w -> script_flat (wo_script w) = true.
+Proof. exact flat_gen_normal. Qed.
+
+(* hence every name the header declares is defined by a final pass that ends without error *)
+Theorem C13_header_defined : forall env senv ext d rt w st sym,
+  gen_normal d rt = Ok w ->
+  let st' := exec_script env senv ext true (wo_script w) st in
+  l_errors st' = [] -> In sym (linker_symbols w) -> exists v, lookup sym (l_syms st') = Some v.
+Proof. exact header_symbols_defined. Qed.
+
+Theorem C13_header_defined_layout : forall d rt w u ext0 sym,
+  gen_normal d rt = Ok w ->
+  let st' := layout (wo_script w) u ext0 in
+  l_errors st' = [] -> In sym (linker_symbols w) -> exists v, lookup sym (l_syms st') = Some v.
+Proof. exact header_symbols_defined_layout. Qed.
+
+(* the sample document: the link ends without error and its 52 header names are all defined *)
+Example ex_header_defined :
+  match gen_normal ex_doc ex_rt with
+  | Ok w =>
+      let st := layout (wo_script w) ex_universe [("main", 5)] in
+      l_errors st = [] /\ List.length (linker_symbols w) = 52%nat /\
+      forallb (fun x => is_some (lookup x (l_syms st))) (linker_symbols w) = true
+  | Err _ => False
+  end.
+Proof. vm_compute. repeat split; reflexivity. Qed.
+
+(* without the required symbol "main" among the objects the link fails, and the theorem says nothing *)
+Example ex_link_fails :
+  match gen_normal ex_doc ex_rt with
+  | Ok w => l_errors (layout (wo_script w) ex_universe []) <> []
+  | Err _ => False
+  end.
+Proof. vm_compute. discriminate. Qed.
+
+Print Assumptions C13_defined.
+Print Assumptions C13_recorded_flat.
+Print Assumptions C13_script_flat.
+Print Assumptions C13_header_defined.
+Print Assumptions C13_header_defined_layout.
